@@ -33,6 +33,8 @@ pub enum Case {
     Builder { which: u8 },
     /// Real kernel differential, scenario `id`, on a regular or direct descriptor.
     Real { id: u16, direct: bool },
+    /// A kernel without the operation (simulated answer): a10's synchronous fallback is the system call itself.
+    Fallback { which: u8 },
 }
 
 fn v(sig: &str, msg: String) -> Violation {
@@ -560,6 +562,154 @@ fn run_builder(which: u8, out: &mut Vec<Violation>) {
             check("rename", s.opcode() == OP_RENAMEAT && s.fd() == libc::AT_FDCWD && s.len() == libc::AT_FDCWD as u32 && s.op_flags() == 0, &s);
         }
     }
+    sim_teardown(w);
+}
+
+
+/// Run `fut` on the simulated kernel, which answers its first request with `-errno`.
+fn with_kernel_refusing<F: Future>(w: &mut SimWorld, fut: F, errno: i32) -> Option<F::Output> {
+    let mut fut = Box::pin(fut);
+    let wk = HWaker::new(9);
+    let mut cx = Context::from_waker(&wk.waker);
+    if let Poll::Ready(r) = talloc::track(|| fut.as_mut().poll(&mut cx)) {
+        return Some(r);
+    }
+    talloc::track(|| {
+        let _ = w.ring.poll(Some(Duration::ZERO));
+    });
+    if let Some(s) = simk::with(|k| k.inflight().last().copied()) {
+        simk::with(|k| k.complete(s, Out::Res(-errno)));
+    }
+    talloc::track(|| {
+        let _ = w.ring.poll(Some(Duration::ZERO));
+    });
+    let r = match talloc::track(|| fut.as_mut().poll(&mut cx)) {
+        Poll::Ready(r) => Some(r),
+        Poll::Pending => None,
+    };
+    talloc::track(|| drop(fut));
+    r
+}
+
+fn run_fallback(which: u8, out: &mut Vec<Violation>) {
+    use std::os::fd::IntoRawFd;
+    let mut w = sim_world();
+    // A real socket under an AsyncFd of the simulated ring: the fallbacks are real system calls.
+    let sock = std::net::UdpSocket::bind("127.0.0.1:0").unwrap();
+    let peer = std::net::UdpSocket::bind("127.0.0.1:0").unwrap();
+    sock.connect(peer.local_addr().unwrap()).unwrap();
+    let (local, remote) = (sock.local_addr().unwrap(), peer.local_addr().unwrap());
+    let raw = sock.into_raw_fd();
+    simk::with(|k| k.adopt_regular(raw));
+    let afd = talloc::track(|| unsafe { AsyncFd::from_raw_fd(raw, w.sq.clone()) });
+    let getopt = |level: i32, name: i32| -> i32 {
+        let mut val = -1i32;
+        let mut len = 4u32;
+        unsafe { libc::getsockopt(raw, level, name, (&raw mut val).cast(), &raw mut len) };
+        val
+    };
+    match which {
+        0 => {
+            let got = with_kernel_refusing(&mut w, afd.local_addr::<std::net::SocketAddr>(), libc::EOPNOTSUPP);
+            if !matches!(&got, Some(Ok(a)) if *a == local) {
+                out.push(v("fallback/local_addr", format!("kernel without the socket command: local_addr returns {got:?}, getsockname(2) gives {local}")));
+            }
+            let got = with_kernel_refusing(&mut w, afd.peer_addr::<std::net::SocketAddr>(), libc::EOPNOTSUPP);
+            if !matches!(&got, Some(Ok(a)) if *a == remote) {
+                out.push(v("fallback/peer_addr", format!("kernel without the socket command: peer_addr returns {got:?}, getpeername(2) gives {remote}")));
+            }
+            // On a direct descriptor there is no system call to fall back to: the error must come through.
+            let dfd: &'static AsyncFd = w.dfd;
+            let got = with_kernel_refusing(&mut w, dfd.local_addr::<std::net::SocketAddr>(), libc::EOPNOTSUPP);
+            if !matches!(&got, Some(Err(_))) {
+                out.push(v("fallback/local_addr-direct", format!("kernel without the socket command, direct descriptor: local_addr returns {got:?}")));
+            }
+        }
+        1 => {
+            use a10::net::option as o;
+            let got = with_kernel_refusing(&mut w, afd.set_socket_option::<o::ReuseAddress>(true), libc::EOPNOTSUPP);
+            if !matches!(&got, Some(Ok(()))) || getopt(libc::SOL_SOCKET, libc::SO_REUSEADDR) != 1 {
+                out.push(v("fallback/set_socket_option", format!("kernel without the socket command: set(SO_REUSEADDR, true) returns {got:?}, getsockopt(2) then gives {}", getopt(libc::SOL_SOCKET, libc::SO_REUSEADDR))));
+            }
+            let got = with_kernel_refusing(&mut w, afd.set_socket_option::<o::RecvBuf>(20_000), libc::EOPNOTSUPP);
+            let want = {
+                let twin = std::net::UdpSocket::bind("127.0.0.1:0").unwrap();
+                use std::os::fd::AsRawFd;
+                let v20 = 20_000i32;
+                unsafe { libc::setsockopt(twin.as_raw_fd(), libc::SOL_SOCKET, libc::SO_RCVBUF, (&raw const v20).cast(), 4) };
+                let mut val = -1i32;
+                let mut len = 4u32;
+                unsafe { libc::getsockopt(twin.as_raw_fd(), libc::SOL_SOCKET, libc::SO_RCVBUF, (&raw mut val).cast(), &raw mut len) };
+                val
+            };
+            if !matches!(&got, Some(Ok(()))) || getopt(libc::SOL_SOCKET, libc::SO_RCVBUF) != want {
+                out.push(v("fallback/set_socket_option", format!("set(SO_RCVBUF, 20000) returns {got:?}; getsockopt gives {}, after setsockopt(2) on a twin {want}", getopt(libc::SOL_SOCKET, libc::SO_RCVBUF))));
+            }
+            let got = with_kernel_refusing(&mut w, afd.socket_option::<o::Type>(), libc::EOPNOTSUPP);
+            if !matches!(&got, Some(Ok(t)) if *t == a10::net::Type::DGRAM) {
+                out.push(v("fallback/socket_option", format!("kernel without the socket command: socket_option::<Type> returns {got:?} for a datagram socket")));
+            }
+            let got = with_kernel_refusing(&mut w, afd.socket_option::<o::RecvBuf>(), libc::EOPNOTSUPP);
+            if !matches!(&got, Some(Ok(n)) if *n as i32 == getopt(libc::SOL_SOCKET, libc::SO_RCVBUF)) {
+                out.push(v("fallback/socket_option", format!("socket_option::<RecvBuf> returns {got:?}, getsockopt(2) gives {}", getopt(libc::SOL_SOCKET, libc::SO_RCVBUF))));
+            }
+        }
+        2 => {
+            for (flags, raw_flags) in [(None, 0), (Some(a10::pipe::PipeFlag::DIRECT), libc::O_DIRECT)] {
+                let f = a10::pipe::pipe(w.sq.clone());
+                let f = match flags { Some(fl) => f.flags(fl), None => f };
+                let got = with_kernel_refusing(&mut w, f, libc::EINVAL);
+                match got {
+                    Some(Ok([r, wr])) => {
+                        let (rfd, wfd) = (ops::raw_of(&r), ops::raw_of(&wr));
+                        let fl = unsafe { libc::fcntl(wfd, libc::F_GETFL) };
+                        let cx = unsafe { libc::fcntl(rfd, libc::F_GETFD) } & libc::FD_CLOEXEC != 0;
+                        let n = unsafe { libc::write(wfd, b"fb".as_ptr().cast(), 2) };
+                        let mut b = [0u8; 4];
+                        let m = unsafe { libc::read(rfd, b.as_mut_ptr().cast(), 4) };
+                        let kinds = format!("{:?}/{:?}", r.kind(), wr.kind());
+                        if kinds != "File/File" || n != 2 || m != 2 || &b[..2] != b"fb" || !cx || (fl & libc::O_DIRECT != 0) != (raw_flags != 0) {
+                            out.push(v("fallback/pipe", format!("kernel without IORING_OP_PIPE, flags {raw_flags:#x}: kinds {kinds}, wrote {n}, read {m}, cloexec {cx}, file flags {fl:#x}; pipe2(2) gives two regular close-on-exec descriptors with those flags")));
+                        }
+                        talloc::track(|| {
+                            drop(r);
+                            drop(wr);
+                            let _ = w.ring.poll(Some(Duration::ZERO));
+                        });
+                        if unsafe { libc::fcntl(rfd, libc::F_GETFD) } != -1 || unsafe { libc::fcntl(wfd, libc::F_GETFD) } != -1 {
+                            out.push(v("fallback/pipe", "the descriptors pipe2(2) made are still open after both AsyncFds were dropped".into()));
+                        }
+                    }
+                    other => out.push(v("fallback/pipe", format!("kernel without IORING_OP_PIPE, flags {raw_flags:#x}: pipe returns {:?}", other.map(|r| r.map(|_| "fds"))))),
+                }
+            }
+        }
+        _ => {
+            // Direct descriptors were asked for: there is no system call that makes those.
+            let f = a10::pipe::pipe(w.sq.clone()).kind(FdKind::Direct);
+            let got = with_kernel_refusing(&mut w, f, libc::EINVAL);
+            match got {
+                Some(Ok([r, wr])) => {
+                    let kinds = format!("{:?}/{:?}", r.kind(), wr.kind());
+                    if kinds != "Direct/Direct" {
+                        out.push(v("fallback/pipe-kind", format!("kernel without IORING_OP_PIPE: pipe(..).kind(Direct) resolves with descriptors of kind {kinds}")));
+                    }
+                    talloc::track(|| {
+                        drop(r);
+                        drop(wr);
+                        let _ = w.ring.poll(Some(Duration::ZERO));
+                    });
+                }
+                Some(Err(_)) => {}
+                None => out.push(v("fallback/pipe-kind", "pipe(..).kind(Direct) never resolves after the kernel refused it".into())),
+            }
+        }
+    }
+    talloc::track(|| {
+        drop(afd);
+        let _ = w.ring.poll(Some(Duration::ZERO));
+    });
+    finish_all(&mut w);
     sim_teardown(w);
 }
 
@@ -1968,6 +2118,7 @@ pub fn run(case: &Case) -> Vec<Violation> {
         Case::Encode { kind } => run_encode(*kind, &mut out),
         Case::Builder { which } => run_builder(*which, &mut out),
         Case::Real { id, direct } => run_real(*id, *direct, &mut out),
+        Case::Fallback { which } => run_fallback(*which, &mut out),
     }
     out
 }
@@ -1991,6 +2142,9 @@ pub fn cases(quick: bool) -> Vec<Case> {
         for direct in [false, true] {
             v.push(Case::Real { id, direct });
         }
+    }
+    for which in 0..4u8 {
+        v.push(Case::Fallback { which });
     }
     v
 }
